@@ -185,6 +185,8 @@ func mapErr(err error) string {
 		return "err:not-config-mode"
 	case strings.Contains(m, "duplicate intention found"):
 		return "err:dup-legacy"
+	case strings.Contains(m, "Cannot modify non-existent intention"), strings.Contains(m, "Cannot delete non-existent intention"):
+		return "err:not-found"
 	case strings.Contains(m, "cannot use legacy intention API to edit intentions"):
 		return "err:legacy-edit-not-allowed"
 	case m == "Name is required":
@@ -292,6 +294,28 @@ func (t *sut) lcreate(run *hx.Run, x ixn) string {
 	out := mapErr(t.s.IntentionMutation(t.idx, structs.IntentionOpCreate, mut))
 	t.line(run, fmt.Sprintf("lcreate %s %s %s %s", hx.EncS(x.dst), hx.EncS(x.src), x.act, hx.EncS(x.id)), out)
 	run.Tag("op:lcreate:" + tagOf(out))
+	return out
+}
+
+// lupdate / ldelid: the legacy intention API (update / delete by id) on config entries
+func (t *sut) lupdate(run *hx.Run, x ixn) string {
+	t.idx++
+	v := x.source()
+	v.Permissions = nil
+	v.LegacyID = x.id
+	now := time.Unix(1700000001, 0).UTC()
+	v.LegacyCreateTime, v.LegacyUpdateTime = &now, &now
+	out := mapErr(t.s.IntentionMutation(t.idx, structs.IntentionOpUpdate, &structs.IntentionMutation{ID: x.id, Value: v}))
+	t.line(run, fmt.Sprintf("lupdate %s %s %s", hx.EncS(x.id), hx.EncS(x.src), x.act), out)
+	run.Tag("op:lupdate:" + tagOf(out))
+	return out
+}
+
+func (t *sut) ldelid(run *hx.Run, id string) string {
+	t.idx++
+	out := mapErr(t.s.IntentionMutation(t.idx, structs.IntentionOpDelete, &structs.IntentionMutation{ID: id}))
+	t.line(run, "ldelid "+hx.EncS(id), out)
+	run.Tag("op:ldelid:" + tagOf(out))
 	return out
 }
 
@@ -447,7 +471,12 @@ func interrogate(run *hx.Run, t *sut, names []string, peers []string) transcript
 	keys := map[string]bool{}
 	for _, o := range listed {
 		k := o.peer + "\x00" + o.src + "\x00" + o.dst
-		if keys[k] {
+		if keys[k] && (o.src == "" || o.dst == "") {
+			// Legacy rows with an empty name are outside the store's uniqueness promise: memdb leaves them out of
+			// the unique (source, destination) index. No RPC can create them (Intention.Validate); the malformed
+			// stream does, and the model mirrors it (theorem legacy_unnamed_rows_duplicate_counterexample).
+			run.Tag("store:unnamed-legacy-rows-share-a-key(unindexed)")
+		} else if keys[k] {
 			violate(run, "store:duplicate-intention-key", fmt.Sprintf("two stored intentions for %s/%s -> %s", o.peer, o.src, o.dst), replay("list"))
 		}
 		keys[k] = true
@@ -726,6 +755,30 @@ func build(run *hx.Run, r *hx.RNG, style string, set []ixn, perm []int) *sut {
 			}
 		}
 		return t
+	case "lupdate": // legacy API: create everything with the opposite action, then update each by id
+		t := newSUT(run, true)
+		ids := append([]string(nil), idPool...)
+		hx.Shuffle(r, ids)
+		for n, k := range perm {
+			x := set[k]
+			x.id = ids[n%len(ids)]
+			if x.act == "a" {
+				x.act = "d"
+			} else {
+				x.act = "a"
+			}
+			if out := t.lcreate(run, x); out != "ok" {
+				violate(run, "write:valid-legacy-create-rejected", out, t.ops)
+			}
+		}
+		for n := len(perm) - 1; n >= 0; n-- {
+			x := set[perm[n]]
+			x.id = ids[n%len(ids)]
+			if out := t.lupdate(run, x); out != "ok" {
+				violate(run, "write:valid-legacy-update-rejected", out, t.ops)
+			}
+		}
+		return t
 	}
 	panic(style)
 }
@@ -809,6 +862,7 @@ func historyCase(run *hx.Run, r *hx.RNG) {
 	t := newSUT(run, cfg)
 	steps := 3 + r.Intn(8)
 	usedIDs := []string{}
+	unnamed := map[string]bool{}
 	nontriv := false
 	for k := 0; k < steps; k++ {
 		x := ixn{src: hx.Pick(r, ends), dst: hx.Pick(r, ends), act: hx.Pick(r, []string{"a", "d"})}
@@ -826,12 +880,22 @@ func historyCase(run *hx.Run, r *hx.RNG) {
 				if r.Chance(4) {
 					x.id = ""
 				}
+				if x.src == "" || x.dst == "" {
+					// unnamed rows escape the unique index; two with one key would sort in an unspecified
+					// order (sort.Sort is not stable), so only the fixed probe creates such a pair
+					if unnamed[x.key()] {
+						x.dst, x.src = names[0], names[0]
+					}
+					unnamed[x.key()] = true
+				}
 				t.lset(run, x)
 				usedIDs = append(usedIDs, x.id)
 			case roll < 85:
 				t.ldel(run, hx.Pick(r, idPool[:5]))
-			case roll < 93:
+			case roll < 90:
 				t.up(run, x)
+			case roll < 94:
+				t.ldelid(run, hx.Pick(r, idPool))
 			default:
 				t.del(run, x.dst, x.src)
 			}
@@ -850,7 +914,7 @@ func historyCase(run *hx.Run, r *hx.RNG) {
 				t.up(run, x)
 			case roll < 50:
 				t.del(run, x.dst, x.src)
-			case roll < 75:
+			case roll < 70:
 				n := r.Intn(4)
 				var srcs []ixn
 				for j := 0; j < n; j++ {
@@ -870,14 +934,28 @@ func historyCase(run *hx.Run, r *hx.RNG) {
 					srcs = append(srcs, y)
 				}
 				t.ent(run, x.dst, srcs)
-			case roll < 80:
+			case roll < 74:
 				t.entdel(run, x.dst)
-			case roll < 93:
+			case roll < 85:
 				x.id = hx.Pick(r, idPool)
 				if r.Chance(5) {
 					x.id = ""
 				}
-				t.lcreate(run, x)
+				if t.lcreate(run, x) == "ok" {
+					usedIDs = append(usedIDs, x.id)
+				}
+			case roll < 91:
+				x.id = hx.Pick(r, idPool)
+				if len(usedIDs) > 0 && r.Chance(75) {
+					x.id = hx.Pick(r, usedIDs)
+				}
+				t.lupdate(run, x)
+			case roll < 94:
+				id := hx.Pick(r, idPool)
+				if len(usedIDs) > 0 && r.Chance(75) {
+					id = hx.Pick(r, usedIDs)
+				}
+				t.ldelid(run, id)
 			case roll < 97:
 				x.id = hx.Pick(r, idPool)
 				t.lset(run, x)
@@ -967,10 +1045,114 @@ func byNameProbe(run *hx.Run) {
 	run.Case("by-name-probe", true)
 }
 
+// unnamedLegacyProbe: the legacy table's unique (source, destination) index skips rows with an empty name, so
+// two such rows are accepted while a named duplicate is rejected. Fixed lines for the model on every run.
+func unnamedLegacyProbe(run *hx.Run) {
+	t := newSUT(run, false)
+	t.lset(run, ixn{id: idPool[0], src: "web", dst: "", act: "a"})
+	// identical content: the relative order of equal keys under sort.Sort is unspecified and must not show
+	t.lset(run, ixn{id: idPool[1], src: "web", dst: "", act: "a"})
+	t.lset(run, ixn{id: idPool[2], src: "", dst: "api", act: "d"})
+	t.lset(run, ixn{id: idPool[3], src: "", dst: "api", act: "d"})
+	t.lset(run, ixn{id: idPool[4], src: "web", dst: "api", act: "a"})
+	if out := t.lset(run, ixn{id: idPool[5], src: "web", dst: "api", act: "d"}); out != "err:dup-legacy" {
+		violate(run, "store:named-duplicate-legacy-row-accepted", out, t.ops)
+	}
+	interrogate(run, t, []string{"web", "api"}, []string{""})
+	run.Case("unnamed-legacy-probe", true)
+}
+
+// caseProbe: names that differ only in letter case. memdb lower-cases the config-entry primary key and every
+// legacy index key, while sources inside entries, the sorter and connect.IntentionMatch compare exact bytes.
+func caseProbe(run *hx.Run) {
+	t := newSUT(run, true)
+	t.ent(run, "Web", []ixn{{src: "api", dst: "Web", act: "d"}, {src: "API", dst: "Web", act: "a"}})
+	q := func(t *sut) {
+		t.list(run)
+		for _, n := range []string{"web", "Web", "api", "API"} {
+			t.match(run, "d", n)
+			t.match(run, "s", n)
+		}
+		for _, sd := range [][2]string{{"api", "web"}, {"api", "Web"}, {"API", "web"}, {"API", "Web"}} {
+			t.check(run, sd[0], sd[1], true, false)
+			t.authz(run, "", sd[0], sd[1], true, false)
+		}
+	}
+	q(t)
+	t.up(run, ixn{src: "db", dst: "web", act: "a"})
+	q(t)
+	t.ent(run, "web", []ixn{{src: "api", dst: "web", act: "a"}})
+	q(t)
+	t.del(run, "WEB", "api")
+	t.list(run)
+	l := newSUT(run, false)
+	l.lset(run, ixn{id: idPool[0], src: "API", dst: "Web", act: "a"})
+	l.lset(run, ixn{id: idPool[1], src: "api", dst: "web", act: "d"})
+	l.lset(run, ixn{id: idPool[2], src: "api", dst: "db", act: "d"})
+	q(l)
+	run.Case("case-probe", true)
+}
+
+// caseHistory: random edits and queries over names that differ only in letter case. Model-vs-implementation
+// lines only: the monitors above restate the property for lower-case names (the property's notion of "the
+// same service"); where the lower-cased memdb keys make the two decision pipelines disagree the case is
+// tagged finding:case-… (see the final report), not raised.
+func caseHistory(run *hx.Run, r *hx.RNG) {
+	names := []string{"web", "Web", "api", "API", "db"}
+	ends := append(append([]string(nil), names...), "*")
+	cfg := !r.Chance(30)
+	t := newSUT(run, cfg)
+	steps := 2 + r.Intn(6)
+	for k := 0; k < steps; k++ {
+		x := ixn{src: hx.Pick(r, ends), dst: hx.Pick(r, ends), act: hx.Pick(r, []string{"a", "d"})}
+		roll := r.Intn(100)
+		switch {
+		case !cfg && roll < 80:
+			x.id = hx.Pick(r, idPool[:6])
+			t.lset(run, x)
+		case !cfg:
+			t.ldel(run, hx.Pick(r, idPool[:6]))
+		case roll < 40:
+			t.up(run, x)
+		case roll < 55:
+			t.del(run, x.dst, x.src)
+		case roll < 80:
+			var srcs []ixn
+			for j := 1 + r.Intn(3); j > 0; j-- {
+				srcs = append(srcs, ixn{src: hx.Pick(r, ends), dst: x.dst, act: hx.Pick(r, []string{"a", "d"})})
+			}
+			t.ent(run, x.dst, srcs)
+		case roll < 88:
+			t.entdel(run, x.dst)
+		default:
+			x.id = hx.Pick(r, idPool)
+			t.lcreate(run, x)
+		}
+	}
+	t.list(run)
+	for _, n := range names {
+		t.match(run, "s", n)
+		t.match(run, "d", n)
+	}
+	for _, s := range names {
+		for _, d := range names {
+			c := t.check(run, s, d, true, false)
+			a := t.authz(run, "", s, d, true, false)
+			if c != a {
+				run.Tag("finding:case-variant-name:check-and-authz-disagree")
+			}
+		}
+	}
+	run.Tag("case-history")
+	run.Case("case:"+strings.Join(t.ops, "|"), true)
+}
+
 func main() {
 	run := hx.Start()
 	run.Rule = "one case = one set of intentions with distinct (peer, source, destination) written in several orders and representations into real state stores (or one random edit history), each store asked every match / list / decision query over the case's names; distinct by the set (or history); non-trivial = at least one decision is made by a stored intention rather than the default policy"
 	byNameProbe(run)
+	unnamedLegacyProbe(run)
+	caseProbe(run)
 	n := run.Scale(250, 1500)
 	for i := 0; i < n; i++ {
 		r := run.RNG.Fork(uint64(i))
@@ -978,7 +1160,7 @@ func main() {
 		case 0: // local L4 sets: every representation must agree
 			names := pickNames(r, 2+r.Intn(2))
 			set := genSet(r, names, nil, false, 1+r.Intn(5))
-			permCase(run, r, set, names, []string{"up", "ent", "legacy", "lcreate"}, run.Scale(3, 6), "local-l4")
+			permCase(run, r, set, names, []string{"up", "ent", "legacy", "lcreate", "lupdate"}, run.Scale(3, 6), "local-l4")
 		case 1: // peers and L7: config entries only
 			names := pickNames(r, 2+r.Intn(2))
 			set := genSet(r, names, peerPool, true, 1+r.Intn(6))
@@ -990,6 +1172,9 @@ func main() {
 		default:
 			historyCase(run, r)
 		}
+	}
+	for i := 0; i < run.Scale(40, 300); i++ {
+		caseHistory(run, run.RNG.Fork(uint64(1<<41+i)))
 	}
 	exhaustive(run, run.RNG.Fork(1<<40), run.Scale(2, 3))
 	run.Finish()
